@@ -292,8 +292,8 @@ def run(A, R: Report, thorough: bool):
     R.rule('R20.7', 'Config.__init__ takes the part from the file path only when the path contains `#` (an explicit part= is kept otherwise)', floor=0)
     finit7 = cfgcls.lookup('__init__')
     cfgi7 = A.cfg(finit7)
-    for n in [n for n in inl(A, finit7) if isinstance(n, ast.Assign) and any(src(x) == 'self._part' for t_ in n.targets for x in ([t_] + (list(t_.elts) if isinstance(t_, (ast.Tuple, ast.List)) else []))) and "'#'" in src(n.value)]:
-        guarded = all(any(("'#' in " in t_ and pol) or ("'#' not in " in t_ and not pol) for t_, pol in facts_text(A, finit7, cfgi7, cn.id)) for cn in cfg_nodes_for(cfgi7, n))
+    from .common import part_stores
+    for n, guarded in part_stores(A)[1]:
         R.check(guarded, 'R20.7', f'Config.__init__: `{src(n)[:50]}`', key_of('part-from-path', guarded), 'explicit part kept when the path has no `#`',
                 f'`{src(n)[:70]}` overwrites an explicitly given part when the path has no `#`: the config rebuilt by the migration (path + part) resolves to the main part of the file, and results are copied under the wrong keys', where=where(finit7, n))
 
